@@ -152,6 +152,8 @@ class ShadowStore:
             r = getattr(st, "ready_items", None)
             if r is None:
                 self.stats["skip_ready_attr"] += 1
+                self.mon.blind = "ready_items"
+                self.mon.counters["store_internals_unreadable"] += 1
                 return None
             return list(r)
         return list(st.items)
